@@ -65,3 +65,61 @@ def with_model(make_model, fn, tries=4):
         except ModelResample:
             continue
     raise ModelResample("could not find a model without zero denominators")
+
+
+# --------------------------------------------------------------------------
+# Taylor "recipes" of GroundState.expand_norm_factor ((1+x)^-1) and
+# IntermediateStates.expand_S_taylor ((1+x)^-1/2): lists of
+# (prefactor, [tuples of orders]).  Oracle: truncated power series arithmetic
+# with random 2x2 matrices over F_p standing in for S^(n) (non-commuting, so
+# the order of the factors in every tuple matters).
+def check_taylor_recipe(recipe, order, min_order, exponent_num, seed):
+    """recipe value == coefficient of lambda^order in (1 + X(lambda))^(p/2),
+    p = exponent_num in (-2, -1), X = sum_{n>=min_order} S^(n) lambda^n.
+    Returns None or a message."""
+    import numpy as np
+    from .model import P, inv, number_mod
+    from sympy import Rational
+    rng = np.random.default_rng([seed, 31337])
+    eye = np.eye(2, dtype=object)
+    zero = np.zeros((2, 2), dtype=object)
+    S_ = {0: eye}
+    for n in range(1, order + 1):
+        S_[n] = zero if n < min_order else np.array(
+            [[int(v) for v in row] for row in rng.integers(1, P, size=(2, 2))],
+            dtype=object)
+
+    def mul(a, b):   # truncated product of matrix power series
+        out = [zero.copy() for _ in range(order + 1)]
+        for i, x in enumerate(a):
+            for j, y in enumerate(b):
+                if i + j <= order:
+                    out[i + j] = (out[i + j] + x.dot(y)) % P
+        return out
+    X = [zero] + [S_[n] for n in range(1, order + 1)]
+    ref = zero.copy()
+    power = [eye] + [zero.copy() for _ in range(order)]   # X^0
+    binom = Rational(1)
+    alpha = Rational(exponent_num, 2)
+    for k in range(0, order + 1):
+        if k > 0:
+            power = mul(power, X)
+            binom = binom * (alpha - (k - 1)) / k
+        ref = (ref + number_mod(binom) * power[order]) % P
+    val = zero.copy()
+    try:
+        for pref, tuples in recipe:
+            acc = zero.copy()
+            for tup in tuples:
+                prod = eye
+                for o in tup:
+                    prod = prod.dot(S_[int(o)]) % P
+                acc = (acc + prod) % P
+            val = (val + number_mod(Rational(pref)) * acc) % P
+    except (KeyError, TypeError, ValueError) as exc:
+        return f"malformed recipe {recipe}: {exc!r}"
+    if not (val == ref).all():
+        return (f"recipe {recipe} does not evaluate to the order-{order} "
+                f"coefficient of (1+x)^({exponent_num}/2), min_order="
+                f"{min_order}")
+    return None
